@@ -26,7 +26,7 @@ ASSUME LET all == All IN
 NSeq == IF "NSEQ" \in DOMAIN IOEnv THEN atoi(IOEnv.NSEQ) ELSE 0
 SeqCases ==
     UNION {UNION {
-        {SeqCase(rec, fmt, <<a, b>>) : a \in PairPool(rec, fmt), b \in PairPool(rec, fmt)}
+        {SeqCase(rec, fmt, <<a, b>>) : a \in PairsFor(rec, fmt), b \in PairsFor(rec, fmt)}
         \cup UNION {{SeqCase(rec, fmt, s) : s \in RandomSubset(NSeq, [1..k -> SeqPool(rec, fmt)])} : k \in 3..8}
         : fmt \in SeqFormats(rec)} : rec \in Recs}
 ASSUME "SEQ_FILE" \in DOMAIN IOEnv => ndJsonSerialize(IOEnv.SEQ_FILE, SetToSeq(SeqCases))
